@@ -150,7 +150,9 @@ def execute_rows(ctx: Ctx, rows):
             if row["same"]:
                 # non-finite SI values: the six comparisons are those of the SI floats (IEEE: every ordering with NaN is False)
                 nan, inf = float("nan"), float("inf")
-                for x, y in ((nan, 1.0), (1.0, nan), (nan, nan), (inf, inf), (-inf, inf), (inf, 1.0)):
+                import math as _m
+                for x, y in ((nan, 1.0), (1.0, nan), (nan, nan), (inf, inf), (-inf, inf), (inf, 1.0),
+                             (0.1 + 0.2, 0.3), (1.0, _m.nextafter(1.0, 2.0)), (-5e-324, 0.0), (1e300, _m.nextafter(1e300, 0.0))):      # nearly equal is not equal
                     qx, qy = A(x), A(y)
                     for opname, fn in (("<", lambda p, q_: p < q_), ("<=", lambda p, q_: p <= q_), (">", lambda p, q_: p > q_), (">=", lambda p, q_: p >= q_),
                                        ("==", lambda p, q_: p == q_), ("!=", lambda p, q_: p != q_)):
@@ -159,10 +161,11 @@ def execute_rows(ctx: Ctx, rows):
             if (a == b) != (bool(row["same"]) and float(a) == float(b)) or (a != b) == (a == b):
                 bad("eq", f"{row['a']} == {row['b']} -> {a == b}", row)
             # numbers
-            for k in (3, 0.5):
-                r1, r2, r3 = a * k, k * a, a / k
-                if type(r1) is not A or float(r1) != float(a) * k or type(r2) is not A or float(r2) != float(a) * k or type(r3) is not A or float(r3) != float(a) / k:
-                    bad("scaling", f"{row['a']} scaled by {k}: {type(r1).__name__} {float(r1)!r}", row)
+            for k in (3, 0.5, 7, 49, 0.1, 1e-310):
+                for a_ in (a, A(5.0), A(1e-300)):
+                    r1, r2, r3 = a_ * k, k * a_, a_ / k
+                    if type(r1) is not A or float(r1) != float(a_) * k or type(r2) is not A or float(r2) != float(a_) * k or type(r3) is not A or float(r3) != float(a_) / k:
+                        bad("scaling", f"{row['a']}({float(a_)!r}) scaled by {k}: * -> {float(r1)!r} / {float(r2)!r} (SI floats: {float(a_) * k!r}), / -> {float(r3)!r} (SI floats: {float(a_) / k!r})", row)
             if ri % 41 == 0:
                 inv = 2 / a
                 want_sig = [-x for x in sig[row["a"]]]
